@@ -5,6 +5,7 @@ import (
 	"go/ast"
 	"go/token"
 	"go/types"
+	"os"
 	"sort"
 	"strings"
 
@@ -29,17 +30,19 @@ func libLenFacts(call *ssa.Call, resultIdx int) (minLen int64, needErrNil bool, 
 	return 0, false, false
 }
 
-// justification table: KIND|function|construct → reason. One line per site, no wildcards.
+// justification table: KIND|function|construct → reason. One line per site, no wildcards. The construct
+// is written with local variables abstracted to ‹type› (srcExprNorm), so a rename does not orphan a line;
+// UPFCHECK_NORMKEYS=1 prints the key of every unjustified obligation.
 var justifications = map[string]string{
-	"IDX|pfcpiface.(*UP4).sendCreate|all.pdrs[i]":                                                                "relational: sendCreate is only called for an establishment, where the handler appends every PDR to session.pdrs and to addPDRs in lock-step from empty lists, so len(all.pdrs) == len(updated.pdrs) (secondary check R01.J1: the establishment loop appends to both on every path)",
-	"IDX|pfcpiface.(*UP4).sendCreate|all.pdrs[i] #2":                                                             "same relational argument as the previous line (second use of the same index in the loop body)",
-	"NIL|pfcpiface.releaseAllocatedIPs|ippool.DeallocIP(session.localSEID)":                                      "reached only for a PDR with allocIPFlag set, which parseUEAddressIE sets only after ippool.LookupOrAllocIP succeeded on a non-nil pool (secondary check R01.J5: the store of allocIPFlag is dominated by the nil check and the successful allocation)",
-	"IDX|pfcpiface.(*PFCPSession).MarkSessionQer|s.pdrs[i].qerIDList[:idx]":                                      "findItemIndex returns a value in [0, len(slice)] (loop index or len) and the use is guarded by idx != len(s.pdrs[i].qerIDList) (secondary check R01.J2 on findItemIndex's returns)",
-	"IDX|pfcpiface.(*PFCPSession).MarkSessionQer|s.pdrs[i].qerIDList[idx+1:]":                                    "same guard as the previous line: idx < len, so idx+1 <= len",
-	"BLK|pfcpiface.(*PFCPConn).shutdownConn|pConn.done <- rAddr":                                                 "node-level completion channel with capacity 100, drained by PFCPNode.Serve and, at stop, by waitForPFCPConns; never closed (C10 R10.2)",
-	"BLK|pfcpiface.(*bess).SendEndMarkers|b.endMarkerChan <- eMarker":                                            "channel of capacity 1024 created in SetUpfInfo; reported under C14/C10 scope only if the consumer loop is missing (R01.J3 checks that SetUpfInfo starts endMarkerSendLoop whenever end markers are enabled and the socket was dialled)",
-	"BLK|pfcpiface.(*UP4).SendEndMarkers|up4.endMarkerChan <- eMarker":                                           "channel of capacity 1024 created together with its consumer goroutine inside initOnce (R01.J3)",
-	"EXIT|pfcpiface.(*pdr).parseApplicationID|logger.PfcpLog.Fatalln(\"mismatch in App ID\", appID, apfd.appID)": "unreachable while every writer of PFCPConn.appPFDs stores a record whose appID equals its key (secondary check R01.J4 on the map's writers)",
+	"IDX|pfcpiface.(*UP4).sendCreate|‹PacketForwardingRules›.pdrs[‹int›]":                                               "relational: sendCreate is only called for an establishment, where the handler appends every PDR to session.pdrs and to addPDRs in lock-step from empty lists, so len(all.pdrs) == len(updated.pdrs) (secondary check R01.J1: the establishment loop appends to both on every path)",
+	"IDX|pfcpiface.(*UP4).sendCreate|‹PacketForwardingRules›.pdrs[‹int›] #2":                                            "same relational argument as the previous line (second use of the same index in the loop body)",
+	"NIL|pfcpiface.releaseAllocatedIPs|‹IPPool›.DeallocIP(‹PFCPSession›.localSEID)":                                     "reached only for a PDR with allocIPFlag set, which parseUEAddressIE sets only after ippool.LookupOrAllocIP succeeded on a non-nil pool (secondary check R01.J5: the store of allocIPFlag is dominated by the nil check and the successful allocation)",
+	"IDX|pfcpiface.(*PFCPSession).MarkSessionQer|‹PFCPSession›.pdrs[‹int›].qerIDList[:‹int›2]":                          "findItemIndex returns a value in [0, len(slice)] (loop index or len) and the use is guarded by idx != len(s.pdrs[i].qerIDList) (secondary check R01.J2 on findItemIndex's returns)",
+	"IDX|pfcpiface.(*PFCPSession).MarkSessionQer|‹PFCPSession›.pdrs[‹int›].qerIDList[‹int›2+1:]":                        "same guard as the previous line: idx < len, so idx+1 <= len",
+	"BLK|pfcpiface.(*PFCPConn).shutdownConn|‹PFCPConn›.done <- ‹string›":                                                "node-level completion channel with capacity 100, drained by PFCPNode.Serve and, at stop, by waitForPFCPConns; never closed (C10 R10.2)",
+	"BLK|pfcpiface.(*bess).SendEndMarkers|‹bess›.endMarkerChan <- ‹[]byte›":                                             "channel of capacity 1024 created in SetUpfInfo; reported under C14/C10 scope only if the consumer loop is missing (R01.J3 checks that SetUpfInfo starts endMarkerSendLoop whenever end markers are enabled and the socket was dialled)",
+	"BLK|pfcpiface.(*UP4).SendEndMarkers|‹UP4›.endMarkerChan <- ‹[]byte›":                                               "channel of capacity 1024 created together with its consumer goroutine inside initOnce (R01.J3)",
+	"EXIT|pfcpiface.(*pdr).parseApplicationID|logger.PfcpLog.Fatalln(\"mismatch in App ID\", ‹string›, ‹appPFD›.appID)": "unreachable while every writer of PFCPConn.appPFDs stores a record whose appID equals its key (secondary check R01.J4 on the map's writers)",
 }
 
 type obl struct {
@@ -61,18 +64,30 @@ type oblEngine struct {
 	used  map[string]bool // justification lines used
 
 	seenLookup map[*ssa.Lookup]bool
+	norm       map[string]string // function|construct → construct with local names abstracted
 }
 
 func (e *oblEngine) constructOf(f *ssa.Function, pos token.Pos, want func(ast.Node) bool, fallback string) string {
-	txt := e.w.srcExpr(pos, want)
+	txt, norm := e.w.srcExprNorm(pos, want)
 	if txt == "" {
-		txt = fallback
+		txt, norm = fallback, fallback
 	}
 	key := e.w.FuncName(f) + "|" + txt
 	e.seenC[key]++
 	if n := e.seenC[key]; n > 1 {
 		txt = fmt.Sprintf("%s #%d", txt, n)
 	}
+	// the justification table is keyed by the construct with its local names abstracted to their
+	// types, so that renaming a variable does not orphan a justification
+	nkey := e.w.FuncName(f) + "|\x00" + norm
+	e.seenC[nkey]++
+	if n := e.seenC[nkey]; n > 1 {
+		norm = fmt.Sprintf("%s #%d", norm, n)
+	}
+	if e.norm == nil {
+		e.norm = map[string]string{}
+	}
+	e.norm[e.w.FuncName(f)+"|"+txt] = norm
 	return txt
 }
 
@@ -94,10 +109,17 @@ func (e *oblEngine) record(kind string, f *ssa.Function, ins ssa.Instruction, co
 		e.r.idxLines[pos] = true
 	}
 	if !ok {
-		if why, has := justifications[kind+"|"+fn+"|"+construct]; has {
-			e.used[kind+"|"+fn+"|"+construct] = true
+		nc := e.norm[fn+"|"+construct]
+		if nc == "" {
+			nc = construct
+		}
+		if why, has := justifications[kind+"|"+fn+"|"+nc]; has {
+			e.used[kind+"|"+fn+"|"+nc] = true
 			e.r.ok(e.rule+"."+kind, fn, construct, pos, "justification table: "+why)
 			return
+		}
+		if os.Getenv("UPFCHECK_NORMKEYS") != "" {
+			fmt.Fprintf(os.Stderr, "NORMKEY %s|%s|%s\n", kind, fn, nc)
 		}
 		e.r.bad(e.rule+"."+kind, fn, construct, pos, how)
 		return
@@ -844,8 +866,87 @@ func (e *oblEngine) taObls(f *ssa.Function) {
 				return
 			}
 		}
+		// (d) sync.Pool: the value comes from the pool's New function or from a Put; all of them hand in the asserted type
+		if call, ok := ta.X.(*ssa.Call); ok && calleeName(call) == "(*sync.Pool).Get" {
+			if ok4, why := w.poolHolds(call.Call.Args[0], ta.AssertedType); ok4 {
+				e.record("TA", f, i, c, true, false, why)
+				return
+			}
+		}
 		e.record("TA", f, i, c, false, false, "type assertion without comma-ok on a value whose dynamic type is not established ("+symOf(ta.X).String()+"): a value of another type panics")
 	})
+}
+
+// poolHolds: pool is the address of a package-level sync.Pool whose New function returns the asserted
+// type on every return, and every Put into that pool in the repo passes a value of that static type.
+func (w *World) poolHolds(pool ssa.Value, want types.Type) (bool, string) {
+	g, ok := pool.(*ssa.Global)
+	if !ok || g.Pkg == nil {
+		return false, ""
+	}
+	okNew := false
+	if init := g.Pkg.Func("init"); init != nil {
+		allInstrs(init, func(i ssa.Instruction) {
+			st, ok := i.(*ssa.Store)
+			if !ok {
+				return
+			}
+			fa, ok := st.Addr.(*ssa.FieldAddr)
+			if !ok || fa.X != ssa.Value(g) || fieldVar(fa) == nil || fieldVar(fa).Name() != "New" {
+				return
+			}
+			nf := closureOf(st.Val)
+			if nf == nil || nf.Blocks == nil {
+				return
+			}
+			all := true
+			for _, ret := range returnsOf(nf) {
+				var inner types.Type
+				switch x := res(ret, 0).(type) {
+				case *ssa.MakeInterface:
+					inner = x.X.Type()
+				case *ssa.ChangeInterface:
+					inner = x.X.Type()
+				}
+				if inner == nil || !(types.Identical(inner, want) || types.AssignableTo(inner, want)) {
+					all = false
+				}
+			}
+			okNew = all
+		})
+	}
+	if !okNew {
+		return false, ""
+	}
+	for _, f := range w.Funcs {
+		bad := false
+		allInstrs(f, func(i ssa.Instruction) {
+			c, ok := i.(ssa.CallInstruction)
+			if !ok || calleeName(c) != "(*sync.Pool).Put" || c.Common().Args[0] != ssa.Value(g) {
+				return
+			}
+			v := c.Common().Args[1]
+			switch x := v.(type) {
+			case *ssa.MakeInterface:
+				if types.Identical(x.X.Type(), want) || types.AssignableTo(x.X.Type(), want) {
+					return
+				}
+			case *ssa.ChangeInterface:
+				if types.Identical(x.X.Type(), want) || types.AssignableTo(x.X.Type(), want) {
+					return
+				}
+			default:
+				if types.Identical(v.Type(), want) {
+					return
+				}
+			}
+			bad = true
+		})
+		if bad {
+			return false, ""
+		}
+	}
+	return true, "sync.Pool " + g.Name() + ": New and every Put hand in a " + want.String()
 }
 
 // containerHolds: the asserted value comes out of a sync.Map field / golang-set field and
@@ -1133,6 +1234,8 @@ func (w *World) mapKeyAlwaysPresent(m ssa.Value, k int64) (bool, string) {
 		f2, ok := uu.X.(*ssa.FieldAddr)
 		return ok && fieldVar(f2) == fld
 	}
+	// the function that assigns the map field is the one that has to establish the key; any other
+	// writer may only add entries (a constant key other than k, or a value that cannot be nil)
 	var init *ssa.Function
 	okAll := true
 	for _, f := range w.Funcs {
@@ -1141,22 +1244,44 @@ func (w *World) mapKeyAlwaysPresent(m ssa.Value, k int64) (bool, string) {
 		}
 		f := f
 		allInstrs(f, func(i ssa.Instruction) {
-			switch x := i.(type) {
-			case *ssa.Store:
+			if x, ok := i.(*ssa.Store); ok {
 				if f2, ok := x.Addr.(*ssa.FieldAddr); ok && fieldVar(f2) == fld {
 					if init != nil && init != f {
 						okAll = false
 					}
 					init = f
 				}
+			}
+		})
+	}
+	for _, f := range w.Funcs {
+		if strings.HasPrefix(w.FuncName(f), "test/") || f == init {
+			continue
+		}
+		allInstrs(f, func(i ssa.Instruction) {
+			switch x := i.(type) {
 			case *ssa.MapUpdate:
-				if isFld(x.Map) && init != nil && f != init {
+				if !isFld(x.Map) {
+					return
+				}
+				if kk, isK := constInt(x.Key); isK && kk != k {
+					return
+				}
+				switch x.Value.(type) {
+				case *ssa.Alloc, *ssa.MakeInterface, *ssa.MakeMap, *ssa.MakeSlice, *ssa.MakeChan, *ssa.MakeClosure:
+					return
+				}
+				okAll = false
+			case *ssa.Call:
+				if b, isB := x.Call.Value.(*ssa.Builtin); isB && (b.Name() == "delete" || b.Name() == "clear") && len(x.Call.Args) > 0 && isFld(x.Call.Args[0]) {
 					okAll = false
 				}
-				if isFld(x.Map) && init == nil {
-					init = f
-				}
-			case *ssa.Call:
+			}
+		})
+	}
+	if init != nil {
+		allInstrs(init, func(i ssa.Instruction) {
+			if x, ok := i.(*ssa.Call); ok {
 				if b, isB := x.Call.Value.(*ssa.Builtin); isB && (b.Name() == "delete" || b.Name() == "clear") && len(x.Call.Args) > 0 && isFld(x.Call.Args[0]) {
 					okAll = false
 				}
